@@ -273,6 +273,11 @@ def rule_terms(ctx):
     fv = ev("sigma_0::Formula::free_variables")
     q = {a[0]: a[-1] for a in fv[2]}.get("Formula::QuantifiedFormula{}") if fv[0] == "match" else None
     ok = q == ("upd", ("acc", ("call", "Formula::free_variables", (P((QFm, "formula")),))), "shift_remove", (("each", ("fieldof", P((QFm, "quantification")), "variables")),))
+    if not ok and isinstance(q, tuple) and q[:1] == ("upd",) and q[2] == "retain" and len(q[3]) == 1:
+        # the same set difference written as `retain(|v| !V.contains(v))`
+        FV_, V_ = ("call", "Formula::free_variables", (P((QFm, "formula")),)), ("fieldof", P((QFm, "quantification")), "variables")
+        cl_ = _shape(q[3][0])
+        ok = q[1] in (FV_, ("acc", FV_)) and cl_ == ("closure", ("$0",), ("op", "Not", ("call", "slice::contains", (V_, ("param", "$0")))))
     ctx.add("COLLECT", "free_variables:quantifier", ok, ctx.site(fx.fn("sigma_0::Formula::free_variables")), "free(Q V F) = free(F) minus every variable of V (name and sort)", construct=q)
 
 
